@@ -205,6 +205,11 @@ def attached_comment_words(v, drop_unrendered_trailing=False):
         elif isinstance(x, (list, tuple, set, frozenset)):
             for y in x:
                 walk(y)
+        elif type(x).__name__ == 'CallObj':
+            for y in x.args:
+                walk(y)
+            for _, y in x.kwargs:
+                walk(y)
     walk(v)
     return out
 
@@ -420,6 +425,16 @@ def builtin_values_section(tier, seed):
             d = {(k, rng.choice([1, 2.5])): 0 for k in keys}
         v = rng.choice([d, [d, 1], {'outer': d}, (d,)])
         cases.append((v, settings_for(rng, v, 'quick', (0, 1))[::3]))
+    # long containers (a printer may take another path above some length): 64-200 elements of every leaf kind, incl. the floats without a
+    # literal, nested one level, as list / tuple / set / frozenset / dict
+    leaf_pool = [0, 7, -3, 2.5, -0.0, float('inf'), float('-inf'), float('nan'), True, None, 'a', 'two words', b'x', 10 ** 20, (1, 2), ()]
+    for n in (64, 65, 100, 130, 200):
+        for _ in range(2 if tier == 'quick' else 8):
+            items = [rng.choice(leaf_pool) for _ in range(n)]
+            hashables = [x for x in items if x == x]
+            for v in (items, tuple(items), set(hashables + list(range(1000, 1000 + n))), frozenset(list(range(n)) + [float('inf')]),
+                      {i: x for i, x in enumerate(items)}, [items[:3], items], {'k': tuple(items)}):
+                cases.append((v, [(4, 79, 71, None, 1000, 0), (4, 30, 30, None, 1000, 0), (2, 200, 200, None, 1000, 0)]))
     # keys of several types that cannot be compared with each other: grouped by type name, value order within a group, insertion
     # order where neither applies (F23); every insertion order of a few such key sets
     mixed_pool = [3, 1, 'b', 'a', b'y', b'x', None, (2, 1), (1, 9), Ellipsis]
@@ -505,6 +520,16 @@ def comments_section(tier, seed, mode='c09'):
                 for cv in (pp.comment(inst, text), pp.trailing_comment(inst, text), [pp.trailing_comment(inst, text), 1],
                            {'k': pp.comment(inst, text)}, pp.comment(pp.trailing_comment(inst, text), 'both')):
                     cases.append((cv, narrow))
+    # comments on the arguments of call-style printed objects: the sole (hugged) list / dict / tuple argument, one of several, a keyword
+    # argument; comment() and trailing_comment(); the annotated node itself and a child of it
+    for text in ('why', 'w1 w2\nw3'):
+        for payload in ([1, 2], {'a': 1}, (1, 2), 'scalar', [[3], 4]):
+            for wrapf in (lambda x: pp.comment(x, text), lambda x: pp.trailing_comment(x, text)):
+                arg = wrapf(payload)
+                child = [wrapf(1), 2]
+                for call in (S.CallObj(S.Ctor, (arg,), []), S.CallObj(S.Ctor, (arg, 1), []), S.CallObj(S.Ctor, (), [('kw', arg)]),
+                             S.CallObj(S.some_function, (0,), [('kw', arg)]), S.CallObj(S.Ctor, (child,), []), [S.CallObj(S.Ctor, (arg,), []), 5]):
+                    cases.append((call, narrow))
     # sorted dicts whose keys carry comments: the entry stays in its sorted place (F20)
     sorted_sets = [(4, w, w, None, 1000, 1) for w in (1, 20, 79)]
     for keys in ((2, 1), ('b', 'a', 'c'), (2.5, 1, 3), ((2, 1), (1, 2))):
